@@ -1155,3 +1155,47 @@ func famFastPathRace(t *testing.T, seed int64, steps int) *Cluster {
 	c.converge(500 * time.Millisecond)
 	return c
 }
+
+// famXferIsolated: the target of a leadership transfer is cut off right after it received TimeoutNow. The transfer
+// entitles it to one election without pre-vote; after that it is an ordinary server without a quorum: its term must
+// stay where it is however long it is isolated, and its return must not disturb the leader (C14).
+func famXferIsolated(t *testing.T, seed int64, steps int) *Cluster {
+	opt := DefaultOptions(seed)
+	opt.Family = "xferisolated"
+	if seed%2 == 1 {
+		opt.Servers = []string{"n1", "n2", "n3", "n4", "n5"}
+		opt.Initial = map[string]string{"n1": "V", "n2": "V", "n3": "V", "n4": "V", "n5": "V"}
+	}
+	c := NewCluster(t, opt)
+	c.Bootstrap()
+	c.StartAll()
+	L := c.WaitLeader(2 * time.Second)
+	if L == "" {
+		return c
+	}
+	var others []string
+	for _, id := range opt.Servers {
+		if id != L {
+			others = append(others, id)
+		}
+	}
+	T := others[int(seed/2)%len(others)]
+	c.Apply(L, 0)
+	c.Settle("client")
+	c.Drive(100*time.Millisecond, nil, nil)
+	if c.Leader() != L {
+		c.converge(500 * time.Millisecond)
+		return c
+	}
+	// TimeoutNow reaches T; nothing T sends afterwards is heard, then T is cut off altogether
+	c.Transfer(L, T)
+	c.Settle("client")
+	c.Drive(2*opt.Election, func(r *Rpc) bool { return r.Src != T }, nil)
+	c.isolate(T)
+	c.dropPendingFrom(T)
+	c.Drive(time.Duration(6+seed%10)*opt.Election, nil, nil)
+	c.healAll()
+	c.Drive(300*time.Millisecond, nil, nil)
+	c.converge(500 * time.Millisecond)
+	return c
+}
